@@ -30,7 +30,7 @@ def random_trees(path, seed, n):
             sets = {a: [(a == "mb" and i == 1) or rnd.random() < p for i in range(1, size + 1)] for a, p in (("mb", 0.3), ("crop", 0.2), ("rot", 0.3), ("res", 0.3))}
             tree = {"n": size, "parent": parent, "kind": kind, "sets": sets}
             f.write(json.dumps({"tree": tree, "kidsIndirect": rnd.random() < 0.5, "countOff": rnd.choice([0, 0, 0, 1, 3]), "form": rnd.choice(["table", "stream"]),
-                                "variant": rnd.choice(["plain", "plain", "plain", "cycle", "shared"])}) + "\n")
+                                "variant": rnd.choice(["plain", "plain", "plain", "cycle", "shared"]), "reverse": rnd.random() < 0.5}) + "\n")
 
 
 def run(ctx):
